@@ -35,7 +35,7 @@ fn enc_value(v: &KValue) -> Vec<u64> {
         KValue::Str(k) => enc_str(k.as_str()),
         KValue::Null => vec![1],
         KValue::Number(n) => vec![i64::from(*n) as u64],
-        KValue::Range(r) => vec![r.start().unwrap_or(-1) as u64, r.end().map(|e| e.0).unwrap_or(-1) as u64],
+        KValue::Range(r) => vec![7, r.start().unwrap_or(-1) as u64, r.end().map(|e| e.0).unwrap_or(-1) as u64],
         KValue::Bool(b) => vec![6, *b as u64],
         _ => vec![9],
     }
@@ -62,6 +62,12 @@ const SRC: &[&str] = &[
     "f = |(first..., z)| (first, z)\nf s",              // 11
     "f = |(first..., y, z)| (first, y, z)\nf s",        // 12
     "f = |(a, b, c, rest...)| (a, b, c, rest)\nf s",    // 13
+    "s.starts_with p",   // 14
+    "s.ends_with p",     // 15
+    "s.contains p",      // 16
+    "s.strip_prefix p",  // 17
+    "s.strip_suffix p",  // 18
+    "s.repeat a",        // 19
 ];
 
 const PREDS: &[&str] = &[
@@ -214,6 +220,26 @@ fn unpack_table(k: &KString) -> Vec<Vec<u64>> {
     t
 }
 
+fn ops_table(k: &KString, pats: &[Vec<u8>]) -> Vec<Vec<u64>> {
+    let mut t = Vec::new();
+    for p in pats {
+        let pk = KString::from(String::from_utf8(p.clone()).unwrap());
+        with_scripts(|sc| sc.set("p", KValue::Str(pk.clone())));
+        for i in 14..=18 {
+            // (a panic rebuilds the VM: set p again)
+            let r = run_chunk(i, k, 0, 0);
+            if matches!(r, Err(4)) {
+                with_scripts(|sc| sc.set("p", KValue::Str(pk.clone())));
+            }
+            t.push(enc_result(r));
+        }
+    }
+    for n in 0..3 {
+        t.push(enc_result(run_chunk(19, k, n, 0)));
+    }
+    t
+}
+
 fn drain_then_hint<I>(mut it: I, fuel: usize, back: Option<&dyn Fn(&mut I) -> Option<KIteratorOutput>>) -> Vec<Vec<u64>>
 where
     I: Iterator<Item = KIteratorOutput>,
@@ -334,10 +360,110 @@ fn case_str(case: &Value) -> Value {
     if want.contains('u') {
         o.insert("unpack".into(), json!(unpack_table(&k)));
     }
+    if want.contains('o') {
+        o.insert("ops".into(), json!(ops_table(&k, &pats)));
+    }
     if want.contains('i') {
         o.insert("iter".into(), json!(iter_table(&k, s.len(), &pats)));
     }
     Value::Object(o)
+}
+
+/// kind "fmt": runs `x = <value>` then the two interpolations; returns bytes and cluster counts
+fn case_fmt(case: &Value) -> Value {
+    let value = case["value"].as_str().unwrap_or("0");
+    let full = case["full"].as_str().unwrap_or("");
+    let bare = case["bare"].as_str().unwrap_or("");
+    let run = |spec: &str| -> Result<String, String> {
+        let src = format!("x = {value}\n'{{x{spec}}}'");
+        let mut sv = ScriptVm::new();
+        let o = sv.run(&src);
+        if !o.ok {
+            return Err(o.result);
+        }
+        let chunk = sv.compile(&src, CompilerSettings::default()).map_err(|_| "ECompile".to_string())?;
+        match sv.vm.run(chunk) {
+            Ok(KValue::Str(s)) => Ok(s.as_str().to_string()),
+            Ok(_) => Err("EType".into()),
+            Err(_) => Err("EErr".into()),
+        }
+    };
+    match (run(full), run(bare)) {
+        (Ok(f), Ok(b)) => json!({
+            "full": f.as_bytes(), "bare": b.as_bytes(),
+            "g_full": f.graphemes(true).count(), "g_bare": b.graphemes(true).count(),
+        }),
+        (f, b) => json!({"error": [f.err(), b.err()]}),
+    }
+}
+
+/// kind "esc": the string literal '\<body>' compiled and evaluated
+fn case_esc(case: &Value) -> Value {
+    let body = cps_to_string(&case["body"]).unwrap_or_default();
+    let src = format!("'\\{body}'");
+    let mut sv = ScriptVm::new();
+    let o = sv.run(&src);
+    if !o.ok {
+        return json!({"esc": [2], "class": o.result});
+    }
+    let chunk = match sv.compile(&src, CompilerSettings::default()) {
+        Ok(c) => c,
+        Err(_) => return json!({"esc": [2]}),
+    };
+    match sv.vm.run(chunk) {
+        Ok(KValue::Str(s)) => json!({"esc": enc_str(s.as_str())}),
+        _ => json!({"esc": [9]}),
+    }
+}
+
+/// kind "fparse": the format options the parser produces for '{x:<spec>}'
+/// -> [0, align, w?, w, p?, p, r?, r, fill?, fill code points..] | [2] error | panic
+fn case_fparse(case: &Value) -> Value {
+    use koto_parser::{Node, Parser, StringContents, StringFormatRepresentation as R, StringNode};
+    let spec = cps_to_string(&case["spec"]).unwrap_or_default();
+    let src = format!("'{{x:{spec}}}'");
+    // the oracle for the model: code points in the first cluster of the spec
+    let g = spec.graphemes(true).next().map(|g| g.chars().count()).unwrap_or(0);
+    let ast = match Parser::parse(&src) {
+        Ok(a) => a,
+        Err(_) => return json!({"fparse": [2], "g": g}),
+    };
+    for n in ast.nodes() {
+        if let Node::Str(s) = &n.node {
+            if let StringContents::Interpolated(nodes) = &s.contents {
+                if nodes.len() != 1 {
+                    return json!({"fparse": [8], "g": g, "why": "the lexer split the literal differently"});
+                }
+                if let StringNode::Expression { format, .. } = &nodes[0] {
+                    let mut v: Vec<u64> = vec![0, format.alignment as u64];
+                    for o in [format.min_width, format.precision] {
+                        v.push(o.is_some() as u64);
+                        v.push(o.unwrap_or(0) as u64);
+                    }
+                    let r = format.representation.map(|r| match r {
+                        R::Debug => 0u64,
+                        R::HexLower => 1,
+                        R::HexUpper => 2,
+                        R::Binary => 3,
+                        R::Octal => 4,
+                        R::ExpLower => 5,
+                        R::ExpUpper => 6,
+                    });
+                    v.push(r.is_some() as u64);
+                    v.push(r.unwrap_or(0));
+                    match format.fill_character {
+                        Some(c) => {
+                            v.push(1);
+                            v.extend(ast.constants().get_str(c).chars().map(|c| c as u64));
+                        }
+                        None => v.push(0),
+                    }
+                    return json!({"fparse": v, "g": g});
+                }
+            }
+        }
+    }
+    json!({"fparse": [8], "g": g, "why": "no interpolated expression found"})
 }
 
 fn main() {
@@ -348,6 +474,9 @@ fn main() {
         let kind = case["kind"].as_str().unwrap_or("str");
         let r = guarded(AssertUnwindSafe(|| match kind {
             "str" => case_str(case),
+            "fmt" => case_fmt(case),
+            "esc" => case_esc(case),
+            "fparse" => case_fparse(case),
             _ => json!({"skip": "unknown kind"}),
         }));
         match r {
